@@ -189,6 +189,14 @@ def run_shard_main(prop, tier, seed, spec_file, out_file):
         mod = load_check(prop)
         ctx = Ctx(prop, tier, seed, spec["shard"], spec)
         ctx.count("shards_with_assertions_stripped" if not __debug__ else "shards_with_assertions_enabled")
+        if spec["shard"] % 3 == 1 and not os.environ.get("VERIF_NO_WARNFILTER"):
+            # every third shard: deprecation warnings raised from the library's own modules are errors (what `-W error`
+            # or a test suite's filterwarnings=error does to a program that uses the library)
+            import warnings
+
+            for cat in (DeprecationWarning, PendingDeprecationWarning):
+                warnings.filterwarnings("error", category=cat, module=r"jsonpath(\.|$)")
+            ctx.count("shards_with_library_deprecation_warnings_as_errors")
         mon.start(REPO)
         try:
             if spec.get("kind") == "__witnesses__":
